@@ -178,6 +178,16 @@ def word_level_names(nwords, words, seps, first_word=None, max_commas=2):
                 yield out
 
 
+def w_large(acc, n):
+    words = [WORDS[i % len(WORDS)] for i in range(n) if not WORDS[i % len(WORDS)].endswith("\\")]
+    acc.run("parse", o_parse, " ".join(words), True)
+    acc.run("parse", o_parse, " ".join(words[: n // 2]) + ", " + " ".join(words[n // 2 :]), True)
+    acc.run("parse", o_parse, " ".join(words[: n // 3]) + ", Jr, " + "~".join(words[n // 3 :]), True)
+    acc.run("parse", o_parse, "AA " + "{" * n + "x" + "}" * n + " bb CC", True)
+    acc.run("parse", o_parse, "AA " * n + "bb " * n + "CC", True)
+    acc.classes["large-name"] += 1
+
+
 def w_tok(acc, L, prefix):
     it = ("".join(t) for t in tokens.seqs(tokens.SIGMA_N, L, prefix))
     harness.run_cases(acc, "parse", o_parse, it, distinct_by_construction=True)
@@ -242,6 +252,7 @@ def run(chk):
     quick = chk.tier == "quick"
     tok_len = 5 if quick else 6
     tasks = [("w_tok", t) for t in tokens.seq_tasks(tokens.SIGMA_N, tok_len)]
+    tasks += [("w_large", (n,)) for n in (130, 300, 900)]
     full_words = 4 if quick else 5
     for nw in range(1, full_words + 1):
         for w0 in WORDS:
